@@ -25,7 +25,7 @@ def plan(tier):
     for edges in graphs:
         for outs in itertools.product(('ok', 'raise', 'fail'), repeat=3):
             out.append((C.cfg(3, edges, outs, 2), 1))
-            if tier == 'thorough':
+            if tier == 'thorough' and edges in (C.CHAIN3HS, C.CHAIN3SH, C.FORK3HS, C.JOIN3HS, C.TRI3):
                 out.append((C.cfg(3, edges, outs, 1), 2))
                 out.append((C.cfg(3, edges, outs, 3), 0))
     for edges in ((C.CHAIN3HS, C.JOIN3HS, C.TRI3) if tier == 'thorough' else (C.CHAIN3HS, C.JOIN3HS)):
